@@ -679,6 +679,7 @@ func init() {
 		MinNontrivial: 1000,
 		Streams: []Stream{
 			{Name: "truncations", N: c03TruncN, Run: c03Trunc, Exhaustive: true},
+			{Name: "per-element-reentry", N: reN, Run: reRun("C03"), Exhaustive: true},
 			{Name: "tokens", N: func(c *Ctx) int { return tierN(c, 150000, 3000000) }, Run: c03Tokens},
 			{Name: "bytes", N: func(c *Ctx) int { return tierN(c, 50000, 1000000) }, Run: c03Bytes},
 			{Name: "mutants", N: func(c *Ctx) int { return tierN(c, 60000, 1500000) }, Run: c03Mutants},
